@@ -374,7 +374,11 @@ func (ex *Explorer) inputsFromModel(model map[string]string) ([]InputVal, string
 		case "int":
 			v := int64(0)
 			if ok && err == nil {
-				v = sext(mv.U, nd.Bits)
+				if mv.R != nil {
+					v = mv.R.Num().Int64()
+				} else {
+					v = sext(mv.U, nd.Bits)
+				}
 			}
 			iv.V = strconv.FormatInt(v, 10)
 		case "bool":
@@ -467,6 +471,10 @@ func (ex *Explorer) Known(id string, c *Term) {
 func (ex *Explorer) Nondet(kind string, bits, shift int) *Term {
 	tt := ex.in.tt
 	dom := ex.in.cfg.Dom
+	asInt := kind == "intq" // bounded integer meant for float arithmetic: an Int variable in the rational domain
+	if asInt {
+		kind = "int"
+	}
 	if ex.concrete && ex.in.inStub > 0 && len(ex.stubInputs) == 0 {
 		// a "!" stub in a concrete run without model values for it: zero values
 		switch kind {
@@ -509,9 +517,21 @@ func (ex *Explorer) Nondet(kind string, bits, shift int) *Term {
 		t = tt.Var(name, dom, 0)
 		val = t
 	case "int":
-		name = fmt.Sprintf("i%d_%d", idx, bits)
-		t = tt.Var(name, SBV, bits)
-		val = t
+		if asInt && dom == SReal && bits <= 32 {
+			// rational domain: a bounded integer draw is an Int variable (its bit-vector value is
+			// int2bv of it), so that conversions to float and back stay in integer/real arithmetic
+			// (see shadow.go)
+			name = fmt.Sprintf("j%d_%d", idx, bits)
+			t = tt.Var(name, SInt, 0)
+			lim := int64(1) << uint(bits-1)
+			ex.pc = append(ex.pc, tt.mk("<=", SBool, 0, tt.IntC(-lim), t), tt.mk("<=", SBool, 0, t, tt.IntC(lim-1)))
+			tt.setBounds(t, -lim, lim-1)
+			val = tt.mk(fmt.Sprintf("(_ int2bv %d)", bits), SBV, bits, t)
+		} else {
+			name = fmt.Sprintf("i%d_%d", idx, bits)
+			t = tt.Var(name, SBV, bits)
+			val = t
+		}
 	case "bool":
 		name = fmt.Sprintf("b%d", idx)
 		t = tt.Var(name, SBool, 0)
